@@ -1,5 +1,6 @@
 import GrolProofs.EvalSafeEnv
 import GrolProofs.MemoFootprint
+import GrolProofs.MemoKey
 /-
 C04 — automatic memoization is unobservable.
 
@@ -228,6 +229,13 @@ theorem C04.purity_footprint (fuel : Nat) (f : FuncVal) (args : List Obj) (st : 
       outcome (eval fuel f.body) (bodyState (stateAfter (extendFunctionEnv f args) st) nenv) = .ok v ∧
       Quiet nenv (eval fuel f.body) (bodyState (stateAfter (extendFunctionEnv f args) st) nenv)) :=
   applyFunction_quiet fuel f args st v hok hq
+
+/-- an ingredient of (B): the key test of a lookup (`keyEqList`, Go map-key equality) is identity on
+hashable argument lists without floats — floats are the only hashable values on which a hit can
+serve a call with DIFFERENT arguments (`0.0` / `-0.0`, the recorded float-key class) -/
+theorem C04.key_identity (cfg : Cfg) (args args' : List Obj) (hn : noFloatList args = true)
+    (ha : hashableList cfg args = true) (hb : hashableList cfg args' = true)
+    (h : keyEqList args args' = true) : args = args' := keyEqList_eq cfg args args' hn ha hb h
 
 /-! ### non-vacuity: a memoized recursive function -/
 
